@@ -89,9 +89,17 @@ func runLiveSoak(cs CaseSpec) *CaseResult {
 			}
 		}()
 	}
-	swg.Wait()
+	submitted := make(chan struct{})
+	go func() { swg.Wait(); close(submitted) }()
+	select {
+	case <-submitted:
+	case <-time.After(90 * time.Second):
+		close(stopReaders)
+		res.inconclusive("watchdog: the submitters did not get their transactions accepted within 90 s (overloaded machine)")
+		return res
+	}
 	// quiescence: every node delivered every transaction (watchdog only)
-	deadline := time.Now().Add(90 * time.Second)
+	deadline := time.Now().Add(60 * time.Second)
 	done := false
 	for time.Now().Before(deadline) && !done {
 		done = true
@@ -166,7 +174,7 @@ func runLiveSoak(cs CaseSpec) *CaseResult {
 		}
 	}
 	if !done {
-		res.inconclusive("watchdog: the live network did not deliver every submitted transaction within 90 s")
+		res.inconclusive("watchdog: the live network did not deliver every submitted transaction within 60 s")
 		return res
 	}
 	// C05: exactly once everywhere
